@@ -267,9 +267,10 @@ class Workspace(AbstractContextManager):
         if entity_kwargs is None:
             return None
 
-        # do not share the (mutable, edited in place) metadata dictionary with the source
-        if isinstance(entity_kwargs.get("metadata"), dict):
-            entity_kwargs["metadata"] = deepcopy(entity_kwargs["metadata"])
+        # do not share mutable dictionaries (metadata, options, ...) with the source
+        for key, value in entity_kwargs.items():
+            if isinstance(value, dict):
+                entity_kwargs[key] = deepcopy(value)
 
         entity_type_kwargs = get_attributes(
             entity.entity_type,
